@@ -414,6 +414,10 @@ impl Server {
                         self.events_out.push(Event::Connect(client_addr));
                     }
                 }
+                remote_client::State::Active(ref mut state) => {
+                    // A repeated ACK of an established connection: the client is evidently alive
+                    state.timeout_time_ms = now_ms + self.config.endpoint_config.active_timeout_ms;
+                }
                 _ => (),
             }
         }
